@@ -20,6 +20,7 @@ func runC04(p *Prog, r *Report) {
 	c04R3(p, r)
 	c04R4(p, r)
 	c04R5(p, r)
+	c04R6(p, r)
 }
 
 type unpackSite struct {
@@ -529,3 +530,118 @@ func baseOfIndex(e ast.Expr) ast.Expr {
 }
 
 func normLHS(p *Prog, fc *FuncCtx, e ast.Expr) string { return normExpr(p, fc, e) }
+
+// c04R6: the ring must hold the whole window plus the block being entered. Advancing the window
+// clears the blocks between the old and the new newest block; a ring of exactly `size` bits lets
+// the oldest block of the window alias the newest and be cleared with it, so identifiers still
+// inside the window are accepted a second time. The constructor's ring size is checked as a
+// symbolic lower bound: 1 << bits.Len64(E) >= E + 1, max(a, b) >= each lower bound of a and b.
+func c04R6(p *Prog, r *Report) {
+	const rule = "C04-R6"
+	r.Rule(rule, "the sliding-window ring is larger than the window by at least one block: in NewSlidingWindowFilter the number of ring bits has a symbolic lower bound L with L - size - blockBits >= 0 for every size (using 1 << Len64(E) > E), the ring is made of ringBits / blockBits blocks and the index mask is that block count minus one")
+	fc := p.Func("ss2022", "", "NewSlidingWindowFilter")
+	info := fc.Info()
+	size := fc.ParamObj(0)
+	blockBits := int64(0)
+	if c, ok := fc.Pkg.Types.Scope().Lookup("swfBlockBits").(*types.Const); ok {
+		if v, ok := constIntVal(c); ok {
+			blockBits = v
+		}
+	}
+	if size == nil || blockBits == 0 {
+		r.Fail(rule, "ss2022.NewSlidingWindowFilter:shape", p.posStr(fc.Body.Pos()), "undecided: size parameter or swfBlockBits not found")
+		return
+	}
+	// lower bounds of an expression as linear forms over `size`
+	var lower func(e ast.Expr, depth int) []linForm
+	lower = func(e ast.Expr, depth int) []linForm {
+		if depth > 8 {
+			return nil
+		}
+		e = ast.Unparen(fc.Resolve(e))
+		if k, isC := constInt(info, e); isC {
+			return []linForm{{"": k}}
+		}
+		switch x := e.(type) {
+		case *ast.CallExpr:
+			if inner, ok := isConversion(info, x); ok {
+				return lower(inner, depth+1)
+			}
+			if id, ok := ast.Unparen(x.Fun).(*ast.Ident); ok && id.Name == "max" {
+				var out []linForm
+				for _, a := range x.Args {
+					out = append(out, lower(a, depth+1)...)
+				}
+				return out
+			}
+		case *ast.BinaryExpr:
+			if x.Op == token.SHL {
+				if k, isC := constInt(info, x.X); isC && k == 1 {
+					// 1 << bits.Len64(E) >= E + 1
+					if c, ok := ast.Unparen(x.Y).(*ast.CallExpr); ok && len(c.Args) == 1 {
+						if fn := Callee(info, c); fn != nil && fn.Pkg() != nil && fn.Pkg().Path() == "math/bits" && strings.HasPrefix(fn.Name(), "Len") {
+							return []linForm{linOf(p, fc, c.Args[0], size).add(linForm{"": 1}, 1)}
+						}
+					}
+				}
+				// the shifted one may be written uint64(1)
+				if inner, ok := isConversionExpr(info, x.X); ok {
+					if k, isC := constInt(info, inner); isC && k == 1 {
+						if c, ok := ast.Unparen(x.Y).(*ast.CallExpr); ok && len(c.Args) == 1 {
+							if fn := Callee(info, c); fn != nil && fn.Pkg() != nil && fn.Pkg().Path() == "math/bits" && strings.HasPrefix(fn.Name(), "Len") {
+								return []linForm{linOf(p, fc, c.Args[0], size).add(linForm{"": 1}, 1)}
+							}
+						}
+					}
+				}
+			}
+		}
+		return nil
+	}
+	// the ring: make([]uint, B); B := ringBits / blockBits; mask := B - 1
+	var blocks ast.Expr
+	for _, v := range fieldInits(fc, "ring") {
+		if c, ok := ast.Unparen(fc.Resolve(v)).(*ast.CallExpr); ok && len(c.Args) >= 2 {
+			if id, ok := ast.Unparen(c.Fun).(*ast.Ident); ok && id.Name == "make" {
+				blocks = c.Args[1]
+			}
+		}
+	}
+	okBits, detail := false, "no make(…, ringBits / blockBits) found"
+	if blocks != nil {
+		if be, ok := ast.Unparen(fc.Resolve(blocks)).(*ast.BinaryExpr); ok && be.Op == token.QUO {
+			if k, isC := constInt(info, be.Y); isC && k == blockBits {
+				var strs []string
+				for _, lb := range lower(be.X, 0) {
+					d := lb.add(linForm{size.Name(): 1, "": blockBits}, -1)
+					strs = append(strs, lb.String())
+					good := true
+					for a, c := range d {
+						if a == "" {
+							if c < 0 {
+								good = false
+							}
+						} else if c != 0 {
+							good = false
+						}
+					}
+					if good {
+						okBits = true
+					}
+				}
+				detail = fmt.Sprintf("lower bounds of the ring size in bits: %v; needed: size + %d", strs, blockBits)
+			}
+		}
+	}
+	r.Check(okBits, rule, "ss2022.NewSlidingWindowFilter:ring-exceeds-window-by-a-block", p.posStr(fc.Body.Pos()), "ring bits >= size + block bits for every size", "the ring is not provably larger than the window by one block ("+detail+"): when the window advances, the block that is cleared can be the oldest block of the window, and identifiers still inside the window are accepted again")
+	okMask := false
+	for _, v := range fieldInits(fc, "ringBlockIndexMask") {
+		if blocks != nil {
+			want := linOf(p, fc, blocks).add(linForm{"": 1}, -1)
+			if linOf(p, fc, v).add(want, -1).isZero() {
+				okMask = true
+			}
+		}
+	}
+	r.Check(okMask, rule, "ss2022.NewSlidingWindowFilter:mask-is-blocks-minus-one", p.posStr(fc.Body.Pos()), "index mask = number of blocks - 1", "the block index mask is not the number of ring blocks minus one")
+}
